@@ -334,6 +334,9 @@ pub struct Program
     /// Triggers of the `Origin::App` instances: (instance, triggers).
     #[serde(default)]
     pub app_reactors: Vec<(Inst, Vec<Trig>)>,
+    /// Add `ReactPlugin` after the app-level reactors (`add_reactor`, `add_world_reactor*`, `add_entity_reactor`) instead of before.
+    #[serde(default)]
+    pub plugin_last: bool,
 }
 
 impl Program
